@@ -32,9 +32,10 @@ NS = "{" + XML_NS_MAP["aas"] + "}"
 BASE = "/api/v3.0"
 CTYPES = ["text/plain", "application/pdf"]
 CONTENTS = [b"", b"hello", b"\x00\xff bin", b"other"]
-MT = {"Property": 1, "Range": 2, "SubmodelElementCollection": 3, "SubmodelElementList": 4, "File": 5, "Blob": 6}
+MT = {"Property": 1, "Range": 2, "SubmodelElementCollection": 3, "SubmodelElementList": 4, "File": 5, "Blob": 6,
+      "RelationshipElement": 7, "AnnotatedRelationshipElement": 8}
 MTC = {"Property": "MProp", "Range": "MRange", "SubmodelElementCollection": "MColl", "SubmodelElementList": "MList",
-       "File": "MFile", "Blob": "MBlob"}
+       "File": "MFile", "Blob": "MBlob", "RelationshipElement": "MRel", "AnnotatedRelationshipElement": "MARel"}
 
 
 def b64(s):
@@ -69,6 +70,10 @@ def mk_elem(e):
         return model.File(e["ids"], content_type=ct, value=None if val is None else val[1], **common)
     if mt == "Blob":
         return model.Blob(e["ids"], content_type=ct, value=None if val is None else CONTENTS[val[1]], **common)
+    if mt in ("RelationshipElement", "AnnotatedRelationshipElement"):
+        ref = model.ExternalReference((model.Key(model.KeyTypes.GLOBAL_REFERENCE, "urn:x"),))
+        cls = model.RelationshipElement if mt == "RelationshipElement" else model.AnnotatedRelationshipElement
+        return cls(e["ids"], ref, ref, **common)
     raise ValueError(mt)
 
 
@@ -214,7 +219,8 @@ def abs_quals_xml(el):
 
 
 XML_MT = {"property": "Property", "range": "Range", "submodelElementCollection": "SubmodelElementCollection",
-          "submodelElementList": "SubmodelElementList", "file": "File", "blob": "Blob"}
+          "submodelElementList": "SubmodelElementList", "file": "File", "blob": "Blob",
+          "relationshipElement": "RelationshipElement", "annotatedRelationshipElement": "AnnotatedRelationshipElement"}
 
 
 def abs_elem_xml(el, mt=None):
